@@ -2,7 +2,7 @@
 // C25). It drives two real multiplexing.Multiplexer objects over an in-memory
 // carrier with a wire tap and records what was called, what was returned and
 // what crossed the wire. It contains no property predicate: verdicts are
-// computed by TLC from spec/mux/Mux_Trace.tla and MuxLive_Trace.tla.
+// computed by TLC from spec/mux/Mux_Trace.tla (operators of Mux.tla and MuxTime.tla).
 package main
 
 import (
